@@ -74,7 +74,7 @@ def main(argv):
         repo = scratch + '/r'
         try:
             sh(['git', '-C', '/repo', 'worktree', 'add', '-q', '--detach', repo, 'HEAD'])
-            demo = os.path.join(repo, '_demo.py')
+            demo = os.path.join(repo, 'demo.py')      # (some demonstrations import themselves as `demo`)
             shutil.copy(os.path.join(d, 'demo.py'), demo)
             if confirm:
                 rc0, out0 = run_demo(repo, demo)
